@@ -146,6 +146,8 @@ fn families(a: &Args) -> Vec<Family> {
     let t = a.thorough();
     vec![
         wlist_family("wlists3-directed", false, WListFam { n: 3, m: if t { 3 } else { 2 }, directed: true, loops: true, k: 5 }, &[-2, -1, 0, 1, 3], 1),
+        wlist_family("wlists2-directed-m4", false, WListFam { n: 2, m: 4, directed: true, loops: true, k: 5 }, &[3, 1, 0, -1, -2], 1),
+        wlist_family("wlists3-directed-m4-graph-only", false, WListFam { n: 3, m: 4, directed: true, loops: true, k: if t { 4 } else { 3 } }, &[3, 1, -2, 0], 0),
         wlist_family("wlists3-directed-m3-graph-only", false, WListFam { n: 3, m: 3, directed: true, loops: true, k: 3 }, &[-2, 1, 0], 0),
         wlist_family("wlists3-undirected", false, WListFam { n: 3, m: if t { 3 } else { 2 }, directed: false, loops: true, k: 5 }, &[-2, -1, 0, 1, 3], 1),
         wsimple_family("wsimple3-directed-loops", false, WSimpleFam { n: 3, directed: true, loops: true, k: 3, max_edges: None }, &[-2, 1, 3], 1),
